@@ -19,7 +19,7 @@ from ..runner import Obligation, Result
 P = "C12"
 ASSUMPTIONS = [
     "the network never duplicates or corrupts a message (the Network component cannot); it delays, reorders, drops and partitions",
-    "clients propose pairwise distinct non-None values (None means 'undecided' in the public API); a client calls propose() followed by start_phase1() as the docstring prescribes, possibly several times on one node",
+    "clients propose pairwise distinct non-None values, including values that are falsy in Python (0, '', False, (), 0.0; at most one of 0/False/0.0 per history because they compare equal) (None means 'undecided' in the public API); a client calls propose() followed by start_phase1() as the docstring prescribes, possibly several times on one node",
     "p2 is judged permissively about the proposer's own acceptor state (only message-visible facts are used): the value may follow the peers' promises alone or the peers' promises plus any value the proposer itself may have accepted earlier",
     "p3/d1 count the proposer itself as one promiser/acceptor (its self-promise/self-accept is not visible on the network)",
     "Multi/Flexible Paxos: an instance is a log slot; a node 'reports a decision' for slot i while i <= log.commit_index; commands are pairwise distinct strings; commands reach a leader through submit() before leadership, through submit() followed by the replication call used by examples/distributed/flexible_paxos_quorums.py, or (Multi-Paxos) through a MultiPaxosForward event",
@@ -37,6 +37,25 @@ def ballot_of(m, num="ballot_number", node="ballot_node"):
 
 def short(x):
     return repr(x)[:60]
+
+
+# Values that are falsy in Python are legitimate proposals ("all proposed values"); the oracles below never test the
+# truthiness of a value and only ``None`` means "no value". 0, False and 0.0 compare equal, so at most one of them is used
+# per history (values must be pairwise distinct under ==).
+FALSY = [0, "", False, (), 0.0]
+VALSEL = st.sampled_from([0, 0, 0, 0, 1, 2, 3, 4, 5])
+
+
+def pick_value(sel, k, prefix, used):
+    """k-th value of a history: selector 0 -> the string f'{prefix}{k}', 1..5 -> a falsy value (if still distinct)."""
+    i = as_int(sel) % (len(FALSY) + 1)
+    val = f"{prefix}{k}"
+    if i:
+        cand = FALSY[i - 1]
+        if not any(u == cand for u in used):
+            val = cand
+    used.append(val)
+    return val
 
 
 # =============================================================================== single-decree Paxos
@@ -231,6 +250,7 @@ def paxos_strategy(tier):
         "retry": st.sampled_from([8, 24, 64, 160]),
         "jitter": st.lists(st.integers(0, 15), max_size=6),
         "props": st.lists(st.tuples(t, st.integers(0, 4)).map(list), min_size=1, max_size=4),
+        "vals": st.lists(VALSEL, max_size=4),
     })
 
     # shape "cut-off proposer comes back": node x proposes while partitioned away, somebody else proposes after the
@@ -261,12 +281,13 @@ def run_paxos(case, obl):
         x.set_peers(cl.nodes)
     j = PaxosJudge(r, obl, cl.nodes, n // 2 + 1)
     props = as_list(case.get("props"))[:6]
+    vals, used_vals = as_list(case.get("vals")), []
     proposers = set()
     for k, row in enumerate(props):
         node = cl.nodes[as_int(field(row, 1)) % n]
         proposers.add(node.name)
 
-        def go(ev, node=node, val=f"v{k}"):
+        def go(ev, node=node, val=pick_value(field(vals, k), k, "v", used_vals)):
             j.proposed.append(val)
             f = node.propose(val)
             j.futures.append((node.name, val, f))
@@ -281,6 +302,8 @@ def run_paxos(case, obl):
     r.nontrivial = nb >= 2 and j.late >= 1
     r.labels += [f"ballots={min(nb, 4)}{'+' if nb > 4 else ''}", "decided" if j.seen else "undecided",
                  f"proposers={len(proposers)}", "late-old-ballot-msg" if j.late else "no-late-msg"]
+    if any(not isinstance(v, str) or v == "" for v in used_vals):
+        r.labels.append("falsy-proposal")
     if cl.loss or cl.parts_applied:
         r.labels.append("faulty-net")
     if status != "done":
@@ -542,6 +565,7 @@ def log_strategy(variant, safe=False):
             "q": st.integers(0, 14),
             "starts": starts,
             "cmds": st.lists(st.tuples(t, st.integers(0, 7), st.integers(0, 2)).map(list), max_size=8),
+            "cvals": st.lists(VALSEL, max_size=8),
         }
         return st.fixed_dictionaries(d)
     return s
@@ -574,6 +598,8 @@ def run_log(case, obl, variant, safe=False):
         node = cl.nodes[as_int(field(row, 1)) % n]
         cl.at(clampi(field(row, 0), 0, END_TICKS - 1), "start", lambda ev, node=node: node.start(), daemon=True)
     modes = set()
+    used_cmds = []
+    cmd_values = [pick_value(field(as_list(case.get("cvals")), k), k, "c", used_cmds) for k in range(12)]
     for k, row in enumerate(as_list(case.get("cmds"))[:12]):
         def go(ev, k=k, row=row):
             sel, mode = as_int(field(row, 1)), as_int(field(row, 2)) % 3
@@ -582,7 +608,7 @@ def run_log(case, obl, variant, safe=False):
                 leaders = [x for x in cl.nodes if x.is_leader]
                 if leaders:
                     node = leaders[sel % len(leaders)]
-            cmd = f"c{k}"
+            cmd = cmd_values[k]
             j.submitted.append(cmd)
             if safe and mode == 0 and node.is_leader:
                 mode = 1
@@ -633,6 +659,7 @@ def log_safe_strategy(variant):
             "q": st.integers(0, 14),
             "start": st.tuples(st.integers(0, 50), st.integers(0, 4)).map(list),
             "cmds": st.lists(st.tuples(st.integers(0, 300), st.integers(0, 9), st.integers(1, 2)).map(list), max_size=8),
+            "cvals": st.lists(VALSEL, max_size=8),
         })
     return s
 
@@ -648,7 +675,7 @@ def run_log_safe(case, obl, variant):
         sel = as_int(field(row, 1))
         node = leader % n if sel % 10 < 8 else sel % n
         cmds.append([t0 + 2 * d + 1 + clampi(field(row, 0), 0, 1000), node, 1 + as_int(field(row, 2)) % 2])
-    full = {"n": n, "hb": case.get("hb"), "q": case.get("q"), "starts": [[t0, leader]], "cmds": cmds,
+    full = {"n": n, "hb": case.get("hb"), "q": case.get("q"), "starts": [[t0, leader]], "cmds": cmds, "cvals": case.get("cvals"),
             "net": {"delays": [d], "seed": 0, "loss": 0, "drops": [], "parts": []}}
     r = run_log(full, obl, variant, safe=True)
     r.nontrivial = "commits" in r.labels and len(cmds) >= 2
@@ -667,6 +694,7 @@ def liveness_strategy(safe):
             "hb": st.sampled_from([16, 64, 256]),
             "k": st.integers(1, 3),
             "gap": st.integers(0, 40),
+            "vals": st.lists(VALSEL, max_size=3),
             "mode": st.sampled_from([1, 2]) if safe else st.sampled_from([0, 0, 1, 2]),
         })
     return s
@@ -695,18 +723,19 @@ def run_liveness(case, obl):
         for x in cl.nodes:
             x.set_peers(cl.nodes)
         fut = []
+        val0 = pick_value(field(as_list(case.get("vals")), 0), 0, "v", [])
 
         def go(ev):
-            fut.append(cl.nodes[who].propose("v0"))
+            fut.append(cl.nodes[who].propose(val0))
             return cl.nodes[who].start_phase1()
 
         cl.at(0, "client", go)
         status = cl.run(lambda ev, out: None, RandomShim(3), (mod,))
-        bad = [x.name for x in cl.nodes if not x.is_decided or x.decided_value != "v0"]
+        bad = [x.name for x in cl.nodes if not x.is_decided or x.decided_value != val0 or type(x.decided_value) is not type(val0)]
         if status == "done" and bad:
             v("paxos-single-proposer-not-decided-everywhere",
-              f"after {horizon} ticks (max delay {dmax}) {bad} do not report 'v0'")
-        if status == "done" and not (fut and fut[0].is_resolved and fut[0].value == "v0"):
+              f"after {horizon} ticks (max delay {dmax}) {bad} do not report {val0!r}")
+        if status == "done" and not (fut and fut[0].is_resolved and fut[0].value == val0):
             v("paxos-future-not-resolved", f"future resolved={bool(fut and fut[0].is_resolved)}")
         r.labels += ["paxos", f"dmax={dmax}"]
         r.nontrivial = dmax >= 1
@@ -740,10 +769,12 @@ def run_liveness(case, obl):
         x.set_peers(cl.nodes)
     L = cl.nodes[who]
     cl.at(0, "start", lambda ev: L.start(), daemon=True)
-    cmds, facts, futs = [], {"leader_at_submit": [], "sent": set(), "other_ballots": 0}, []
+    cmds, facts, futs = [], {"leader_at_submit": [], "sent": [], "other_ballots": 0}, []
+    used_live = []
+    live_cmds = [pick_value(field(as_list(case.get("vals")), i), i, "c", used_live) for i in range(4)]
     for i in range(k):
         def go(ev, i=i):
-            cmd = f"c{i}"
+            cmd = live_cmds[i]
             cmds.append(cmd)
             if mode == 2:                      # judged when the forward event is handled (see step)
                 return [cl.Event(time=ev.time, event_type="MultiPaxosForward", target=L, daemon=True,
@@ -764,7 +795,7 @@ def run_liveness(case, obl):
         was_leader[0] = L.is_leader
         for e in out:
             if e.event_type == pre + "Accept":
-                facts["sent"].add(meta(e).get("command"))
+                facts["sent"].append(meta(e).get("command"))
             elif e.event_type == pre + "Prepare" and meta(e).get("source") != L.name:
                 facts["other_ballots"] += 1
 
@@ -1057,7 +1088,7 @@ def run_lock(case, obl):
 
 
 
-RULE_PAXOS = ("3-5 PaxosNodes, 1-4 client proposals of distinct values on arbitrary nodes (also repeatedly on one node) at generated "
+RULE_PAXOS = ("3-5 PaxosNodes, 1-4 client proposals of distinct values (strings and Python-falsy values 0, '', False, (), 0.0) on arbitrary nodes (also repeatedly on one node) at generated "
               "instants, per-message delays 0-300 ticks from the case (messages overtake each other and straddle retries), link loss "
               "0-40 % with scripted drop decisions, 0-2 partition windows, retry jitter from the case; non-trivial = at least two "
               "ballots were started and at least one message of an older ballot was delivered after a newer ballot had started")
